@@ -42,6 +42,7 @@ type Case struct {
 	Width   int     `json:"width"`
 	Hostile bool    `json:"hostile"`
 	Quiet   bool    `json:"quiet"` // the fair drain tail ended with nothing moving
+	Sib     bool    `json:"sib,omitempty"` // a second buffer built from the SAME builder value is exercised alongside
 	Events  []Event `json:"events"`
 	Coq     string  `json:"coq"`
 }
@@ -52,18 +53,35 @@ type runner struct {
 	canon             *vh.Canon
 	botGoIDs          []string // Go IDs of retrieved bottom requests, by canonical index
 	nextFake          int
+	// sibling: a second buffer built from the same builder value (the shader-array builder builds all L1V
+	// reorder buffers of an array that way). It runs a fixed script between the events of the history; the
+	// buffer under observation must behave exactly as if it were alone.
+	sib                    *rob.ReorderBuffer
+	sibTop, sibBot, sibCtl sim.Port
+	sibStep                int
+	sibOld                 []string
 }
 
-func newRunner(capacity, width int) *runner {
+func newRunner(capacity, width int, withSib bool) *runner {
 	engine := sim.NewSerialEngine()
 	r := &runner{canon: vh.NewCanon()}
-	r.rb = rob.MakeBuilder().
+	b := rob.MakeBuilder().
 		WithEngine(engine).
 		WithFreq(1 * sim.GHz).
 		WithBufferSize(capacity).
 		WithNumReqPerCycle(width).
-		WithBottomUnit(sim.RemotePort("BottomUnit")).
-		Build("ROB")
+		WithBottomUnit(sim.RemotePort("BottomUnit"))
+	r.rb = b.Build("ROB")
+	if withSib {
+		r.sib = b.Build("ROBSibling")
+		r.sibTop = r.sib.GetPortByName("Top")
+		r.sibBot = r.sib.GetPortByName("Bottom")
+		r.sibCtl = r.sib.GetPortByName("Control")
+		sc := &vh.StubConn{}
+		sc.PlugIn(r.sibTop)
+		sc.PlugIn(r.sibBot)
+		sc.PlugIn(r.sibCtl)
+	}
 	r.top = r.rb.GetPortByName("Top")
 	r.bot = r.rb.GetPortByName("Bottom")
 	r.ctl = r.rb.GetPortByName("Control")
@@ -130,6 +148,57 @@ func (r *runner) goBotID(canonical uint64) string {
 
 func bp(b bool) *bool { return &b }
 
+// sibNoise advances the sibling's fixed script by one step: requests that stay outstanding below, a discard and
+// a restart with their acknowledgements collected, late answers for discarded requests.
+func (r *runner) sibNoise() {
+	if r.sib == nil {
+		return
+	}
+	k := r.sibStep
+	r.sibStep++
+	read := func() {
+		q := mem.ReadReqBuilder{}.WithSrc("SibAgent").WithDst(r.sibTop.AsRemote()).
+			WithAddress(uint64(64 * k)).WithByteSize(4).Build()
+		r.sibTop.Deliver(q)
+	}
+	ctrl := func(restart bool) {
+		b := mem.ControlMsgBuilder{}.WithSrc("SibCtl").WithDst(r.sibCtl.AsRemote()).ToNotifyDone()
+		if restart {
+			b = b.ToRestart()
+		} else {
+			b = b.ToDiscardTransactions()
+		}
+		r.sibCtl.Deliver(b.Build())
+	}
+	switch k % 14 {
+	case 0, 3:
+		read()
+	case 1, 4, 6, 9, 12:
+		r.sib.Tick()
+	case 2:
+		if m := r.sibBot.RetrieveOutgoing(); m != nil {
+			r.sibOld = append(r.sibOld, m.Meta().ID)
+		}
+	case 5:
+		ctrl(false)
+	case 7, 10:
+		r.sibCtl.RetrieveOutgoing()
+	case 8:
+		ctrl(true)
+	case 11:
+		for r.sibTop.RetrieveOutgoing() != nil {
+		}
+		for r.sibBot.RetrieveOutgoing() != nil {
+		}
+	case 13:
+		if len(r.sibOld) > 0 {
+			r.sibBot.Deliver(mem.DataReadyRspBuilder{}.WithSrc("BottomUnit").WithDst(r.sibBot.AsRemote()).
+				WithRspTo(r.sibOld[0]).WithData([]byte{1, 2, 3, 4}).Build())
+			r.sibOld = r.sibOld[1:]
+		}
+	}
+}
+
 // apply runs one event on the implementation and fills in the observation.
 func (r *runner) apply(e *Event) (crashed bool) {
 	defer func() {
@@ -138,6 +207,7 @@ func (r *runner) apply(e *Event) (crashed bool) {
 			crashed = true
 		}
 	}()
+	defer r.sibNoise()
 	switch e.E {
 	case "dt":
 		e.Acc = bp(r.top.Deliver(r.toSim(e)) == nil)
@@ -194,11 +264,11 @@ type outstanding struct {
 }
 
 // generate produces and runs one random history.
-func generate(rng *vh.Rng, hostile bool) Case {
+func generate(rng *vh.Rng, hostile, withSib bool) Case {
 	caps := []int{1, 2, 3, 4, 8, 128}
 	widths := []int{1, 2, 4}
-	c := Case{Cap: caps[rng.Intn(len(caps))], Width: widths[rng.Intn(len(widths))], Hostile: hostile}
-	r := newRunner(c.Cap, c.Width)
+	c := Case{Cap: caps[rng.Intn(len(caps))], Width: widths[rng.Intn(len(widths))], Hostile: hostile, Sib: withSib}
+	r := newRunner(c.Cap, c.Width, c.Sib)
 	n := 40 + rng.Intn(160)
 	var pending []outstanding // retrieved bottom requests not yet answered
 	var answered []outstanding
@@ -400,8 +470,8 @@ func quietTail(ev []Event) bool {
 
 // replay runs stored events (observations are recomputed).
 func replay(c Case) Case {
-	r := newRunner(c.Cap, c.Width)
-	out := Case{Cap: c.Cap, Width: c.Width, Hostile: c.Hostile}
+	r := newRunner(c.Cap, c.Width, c.Sib)
+	out := Case{Cap: c.Cap, Width: c.Width, Hostile: c.Hostile, Sib: c.Sib}
 	for _, e := range c.Events {
 		ne := Event{E: e.E, Msg: e.Msg}
 		if ne.Msg != nil {
@@ -487,7 +557,7 @@ func main() {
 	} else {
 		rng := vh.NewRng(*seed)
 		for i := 0; i < *n; i++ {
-			cases = append(cases, generate(rng.Fork(), *hostileEvery > 0 && i%*hostileEvery == *hostileEvery-1))
+			cases = append(cases, generate(rng.Fork(), *hostileEvery > 0 && i%*hostileEvery == *hostileEvery-1, i%3 == 1))
 		}
 	}
 	data, _ := json.Marshal(cases)
